@@ -136,8 +136,12 @@ func (d *verifData) leafSets() []uint64 {
 func verifRunHistory(d *verifData, idx *Index, hist []*verifT, tag string) {
 	sets := d.leafSets()
 	mask := verifMask(d.n)
-	for _, t := range hist {
-		res, err := idx.Execute(&Query{Expr: t.expr()})
+	for hi, t := range hist {
+		q := &Query{Expr: t.expr()}
+		if hi%2 == 0 {
+			q.GroupBy = []string{"a"} // grouping reads the result and the stored bitmaps too
+		}
+		res, err := idx.Execute(q)
 		verifAssert(err == nil, tag+": query returned an error")
 		if err != nil {
 			return
